@@ -67,6 +67,10 @@ var (
 // history executor: an update of the subscriber's first live session, through the world's router).
 var reentrantConsumer func()
 
+// reentrantFixed: the scenario has installed its own consumer reaction for the whole execution (concurrent scenarios:
+// the history executor must not replace or remove it)
+var reentrantFixed bool
+
 type Note struct {
 	Method, URL, Body string
 }
